@@ -330,6 +330,7 @@ def sweep_ops(case):
 
 class HistEngine(object):
     prop = PROP
+    isolate_runs = True  # every run in a forked child of the worker (no state leaks from run to run)
 
     def __init__(self, seed=0, mode="random"):
         self.seed = seed
